@@ -65,7 +65,7 @@ def load_known(prop):
             line = line.strip()
             if line.startswith('finding:') and f'property={prop} ' in line:
                 m = re.search(r'key=(\S+)', line)
-                findings.append({'key': m.group(1) if m else None, 'text': line[len('finding:'):].strip()})
+                findings.append({'key': m.group(1) if m else None, 'text': line[len('finding:'):].strip().replace(f'property={prop} ', '', 1)})
     return findings
 
 
@@ -213,7 +213,9 @@ def main(argv=None):
     solver_time = round(sum(r['time'] for r in results), 3)
     slowest = sorted(results, key=lambda r: -r['time'])[:5]
     names_distinct = sorted({r['name'] for r in results})
-    n_obl = len(results)
+    # obligations that fail exactly as a recorded known finding are reported separately (coverage.known_findings_matched)
+    kf_names = {r['name'] for r in failed if r['name'] in known_keys}
+    n_obl = len([r for r in results if r['name'] not in kf_names])
     n_dis = len(proved)
     # known-finding obligations are not counted as discharged; they are reported separately
     trusted = TRUSTED_COMMON + PROP_TRUSTED.get(prop, [])
